@@ -617,11 +617,12 @@ def obligations(tier):
                 'name'),
       Ob('linen_position_addressing', linen_position_addressing,
          dict(n=I(0, nmax), w0=w, s0=s, w1=w, s1=s, w2=w, s2=s, w3=w, s3=s,
-              ins=I(0, nmax), iw=I(0, 1), is_=I(0, 0) if quick else I(0, 2)),
+              ins=I(0, 1) if quick else I(0, nmax), iw=I(0, 1),
+              is_=I(0, 0) if quick else I(0, 2)),
          split=('n', 'w0', 's0'), timeout=600, funcs=G,
          bounds='<=%d draws over root / 2 children / a grandchild x 3 stream names '
-                '(one missing), one unrelated draw inserted at every position' %
-                nmax),
+                '(one missing), one unrelated draw inserted at %s' % (
+                    nmax, 'position 0 or 1' if quick else 'every position')),
       Ob('nnx_streams', nnx_streams,
          dict(n=I(0, 3 if quick else 4), o0=o, o1=o, o2=o, o3=o, o4=o, a0=a, a1=a,
               a2=a, a3=a, a4=a), split=('n', 'o0', 'o1'), timeout=600, funcs=H,
